@@ -81,6 +81,16 @@ Theorem C11_generated_expv_is_model :
 Proof. intros. split; [now apply (gen_expv2_is_model K Kf) | now apply (gen_expv3_is_model K Kf)]. Qed.
 End Statements.
 
+(* 4b. the module wrapper ExpFlow (traced from modules/flow.py with expv replaced by a recorder): forward / inverse() / inv /
+       forward(inverse=True) call expv with the module's steps (steps = 0 stays 0; None = expv's own default), its flag, and
+       its scale, negated exactly on the inverse paths -- so theorems 2-4 and 5-6 apply to the module verbatim *)
+Theorem C11_ExpFlow_is_expv_call :
+  (forall k, (k <= 8)%nat -> gen_expflow_steps (Some k) = k) /\ gen_expflow_steps None = gen_expv_default_steps /\
+  gen_expflow_forward_sign false = 1%Z /\ gen_expflow_forward_sign true = (-1)%Z /\ gen_expflow_inverse_module_sign = (-1)%Z /\
+  (forall ac, gen_expflow_ac ac = ac).
+Proof. exact gen_expflow_is_expv_call. Qed.
+Print Assumptions C11_ExpFlow_is_expv_call.
+
 Print Assumptions C11_square_step_2d.
 Print Assumptions C11_square_step_3d.
 Print Assumptions C11_expv_affine_closed_form_2d.
